@@ -10,7 +10,7 @@ use pc_keyboard::{Error, KeyCode, KeyEvent, KeyState, ScancodeSet, ScancodeSet1,
 pub type Res = Result<Option<KeyEvent>, Error>;
 
 /// The real decoders, with the hook's Clone/Eq/Debug.
-pub trait Dec: ScancodeSet + Clone + PartialEq + std::fmt::Debug + Send + 'static {
+pub trait Dec: ScancodeSet + Clone + PartialEq + std::fmt::Debug + Default + Send + 'static {
     const SET: u8;
     fn fresh() -> Self;
     /// maximum number of consecutive "no event yet" results the property allows
